@@ -272,7 +272,9 @@ func (p *Packet) SetPayload(data []byte) (int, error) {
 	if freeSpace > len(data) {
 		p.SetAdaptationFieldControl(PayloadAndAdaptationFieldFlag)
 		af, _ := p.AdaptationField()
-
+		if af.Length() == 0 {
+			af[5] = 0x00 // the flags byte was payload until now: the grown field has no flags
+		}
 		af.setLength(PacketSize - (len(data) + 4 + 1)) // header length + adaptation field length
 		af.stuffAF()
 	} else {
